@@ -53,6 +53,11 @@ def parse_reads(text):
     return rows
 
 
+def parse_walked(text):
+    m = re.search(r"Definition walked : list string := \[(.*?)\]\.", text, flags=re.S)
+    return [_coq_unquote(x) for x in re.findall(_STR, m.group(1))] if m else []
+
+
 def parse_routes(text):
     """rows of RouteTable.table: (method, pattern, handler); unknown registrations as (None, pos, why)"""
     rts = []
@@ -736,8 +741,34 @@ def build_requests(rng, routes, cfg, world, lits, per_route=10, lit_share=6, all
     return reqs
 
 
-def case_line(config, world, reqs):
+def env_variant(config, leaves, tokens):
+    """The configuration with its passwords taken OUT of the document and supplied through the environment, as Burrow's
+    main.go lets viper read them (prefix BURROW, '.' and '-' -> '_', upper case): (document, {variable: value}).
+    Only passwords whose key path is made of [A-Za-z0-9_-] segments can be named by a variable; the others stay."""
+    doc, env = config, {}
+    for keys, idx, _kind in leaves:
+        if all(re.fullmatch(r"[A-Za-z0-9_-]+", k) for k in keys):
+            name = "BURROW_" + "_".join(k.upper().replace("-", "_") for k in keys)
+            if name in env:
+                continue
+            env[name] = str(tokens[idx])
+            doc = del_at(doc, keys)
+    return doc, env
+
+
+def del_at(cfg, keys):
+    out = dict(cfg)
+    if len(keys) == 1:
+        out.pop(keys[0], None)
+    else:
+        out[keys[0]] = del_at(cfg[keys[0]], keys[1:])
+    return out
+
+
+def case_line(config, world, reqs, env=None):
     doc = {"config": config, "world": world, "ready": True, "requests": [{"m": m, "p": p, "b": b} for (m, p, b, _) in reqs]}
+    if env:
+        doc["env"] = env
     return "run " + json.dumps(doc, ensure_ascii=False).encode("utf-8").hex()
 
 
